@@ -3,10 +3,10 @@ CONSTANTS
   Senders = {s1, s2, s3}
   Probes = {x1}
   Late = {}
-  MaxReq = 2
+  MaxReq = 1
   MaxAbandon = 2
   DirOf <- SameSide
-  Kinds = {"call"}
+  Kinds = {"cast", "call"}
   Faults = {"exit"}
   TagMode = "fresh"
   ResolveMode = "bytag"
